@@ -549,6 +549,35 @@ def _grow(X, T, val):
     return out if grown else None
 
 
+def check_null_ref_with_default(X, rnd, P):
+    """a reference field that declares a non-null default, holding null: what was given (None) is what is read back (C01), and a
+    copy -- same buffer, other buffer, other context -- has a null reference too (C09: equal in value)"""
+    class NR(X.Struct):
+        k = X.Int64
+        r = X.Field(X.Ref[X.Float64[:]], default=[1.0, 2.0, 3.0])
+        s = X.Int8
+
+    for where in ("same-buffer", "other-buffer", "other-context"):
+        buf, _ = make_buffer(X, rnd, "n")
+        try:
+            src = NR(k=7, r=None, s=1, _buffer=buf)
+            P.evals += 1
+            if src.r is not None:
+                P.add("C01", "readback:null-reference-with-declared-default", got=repr(plain(X, src.r))[:80])
+                src.r = None  # (null it by assignment instead, for the copy below)
+                if src.r is not None:
+                    continue
+            dbuf = buf if where == "same-buffer" else (buf.context.new_buffer(16) if where == "other-buffer" else X.ContextCpu().new_buffer(16))
+            cp = NR(src, _buffer=dbuf)
+            if cp.r is not None or cp.k != 7 or cp.s != 1:
+                P.add("C09", f"copy:null-reference-with-declared-default:{where}", got=repr((int(cp.k), None if cp.r is None else plain(X, cp.r)))[:120])
+            dflt = NR(k=1, s=2, _buffer=buf)  # an absent field does take the declared default
+            if dflt.r is None or not eq(plain(X, dflt.r), [1.0, 2.0, 3.0]):
+                P.add("C01", "readback:absent-reference-takes-declared-default")
+        except Exception as e:  # noqa
+            P.add("C09", f"copy:null-reference-with-declared-default:raised:{type(e).__name__}", problem=str(e)[:200])
+
+
 def check_ref_regenerated(X, rnd, P):
     """C08 alias clause for referent types whose item type is itself a generated class (every subscription expression makes new
     class objects): an object built through a *separate* subscription expression and living in the holder's buffer is denoted, not copied"""
@@ -1048,6 +1077,7 @@ def run_all(tier, seed):
     check_lengths(X, rnd, P, 2 if tier == "quick" else 6)
     check_refs(X, sl, rnd, P)
     check_ref_regenerated(X, rnd, P)
+    check_null_ref_with_default(X, rnd, P)
     check_union_families(X, sl, rnd, P)
     # contract of iter_index assumed by the array writer proofs
     from . import axioms_native
